@@ -61,6 +61,9 @@ def to_formula(e: ast.expr, atoms: Dict[str, ast.expr]):
         return parts[0] if len(parts) == 1 else ("and", parts)
     if isinstance(e, ast.Call) and isinstance(e.func, ast.Name) and e.func.id == "bool" and len(e.args) == 1:
         return to_formula(e.args[0], atoms)
+    if isinstance(e, ast.Call) and isinstance(e.func, ast.Name) and e.func.id == "isinstance" and len(e.args) == 2 and not e.keywords and isinstance(e.args[1], ast.Tuple) and e.args[1].elts:
+        # isinstance(x, (A, B)) is isinstance(x, A) or isinstance(x, B): one atom per class, whichever way it is written
+        return ("or", [to_formula(ast.Call(func=e.func, args=[e.args[0], k], keywords=[]), atoms) for k in e.args[1].elts])
     return _atom("T", norm(e), e, atoms)
 
 
